@@ -329,6 +329,9 @@ type fnParam struct {
 	mutated  bool // slice parameter stored into / map parameter changed: its final value is returned
 	goName   string
 	variadic bool // items ...T: the remaining arguments as a list
+	// a read-only pointer to a struct of the file (c *Chunk): one argument per scalar field read
+	ptrFields []string
+	ptrVars   []*fnVar
 }
 
 type fnFunc struct {
@@ -452,6 +455,7 @@ type fnCtx struct {
 	localStructs map[string]*ast.TypeSpec
 	structBusy   map[string]*fnType
 	viewBase     map[string]*fnVar
+	ptrFields    map[*ast.Object]map[string]*fnVar // read-only pointer parameters: field -> its argument
 }
 
 func (c *fnCtx) lostAt(n ast.Node, format string, args ...any) {
